@@ -346,7 +346,12 @@ def drive(inp):
                       sigint_event=True, disable_terminal_start_stop=bool(inp.get("dtss"))) as I:
             env.inp = I
             if early:
-                env.pump()          # in cbreak mode now: everything typed ahead must be readable
+                # everything typed ahead must still be there; if the tty has fewer bytes than were written, entering
+                # the context discarded input: go on with what is left, the reference will miss the lost bytes
+                t_w = real_time.time()
+                while env.fionread() != env.inflight and real_time.time() - t_w < 1.0:
+                    real_time.sleep(0.001)
+                env.inflight = env.fionread()
             env.ev_cbs = [I.event_trigger(Ev) for _ in range(max(1, inp.get("nev", 1)))]
             env.sched_cb = I.scheduled_event_trigger(SEv)
             env.ts_cbs = []
